@@ -78,7 +78,8 @@ THEOREMS = [
     "Jinns.Equations.navierStokes_nth",
     "Jinns.Equations.navierStokes_value",
     "Jinns.Equations.navierStokes_eq_doc",
-    "Jinns.Equations.navierStokes_affine",
+    "Jinns.Equations.navierStokes_affine_nu",
+    "Jinns.Equations.navierStokes_role_rho",
     "Jinns.Equations.navierStokes_vanishes_iff",
     "Jinns.Equations.evalHetero_none",
     "Jinns.Equations.evalHetero_no_function",
@@ -107,11 +108,13 @@ THEOREMS = [
 LEAN_MODULES = ["JinnsProofs.C02"]
 RULE = ("cases = (built-in, Tmax, equation parameters by role, eq_params layout, network keys, polynomial network(s), "
         "point); observable = the array returned by the real evaluate(); non-trivial = a finite residual was returned "
-        "and some network of the case is non-constant with a non-zero derivative entering the residual at the "
-        "point, i.e. the documented value changes if the derivative terms are dropped (counted via the case's "
-        "polynomials: a network of degree >= 1); distinct = distinct case dicts; flavours: random fields, parameter "
-        "solved so that the documented residual vanishes at the point (solved from Lean's documented expression), the "
-        "same perturbed, fields solving the equation identically, the same perturbed")
+        "and at least one network of the case is a non-constant polynomial (degree >= 1), so that derivative terms enter "
+        "the residual; distinct = distinct case dicts; flavours: random fields; a parameter solved so that the "
+        "documented residual vanishes at the point (solved from Lean's documented expression) and the same "
+        "perturbed; fields solving the equation identically (constants / logistic equilibrium / heat polynomials / "
+        "GLV equilibrium / stream-function fields / Poiseuille and stagnation-point flows) and the same perturbed; "
+        "the inherited Fokker-Planck equation() with non-symmetric polynomial drift and diffusion; one rejected "
+        "layout (Navier-Stokes without top-level rho) and one guard case (GLV with u_main(t) = 0)")
 ASSUMPTIONS = [
     "JAX AD contract: grad/hessian/jacrev of a polynomial network return its exact partial derivatives; "
     "grad(log(u)) = u'/u",
@@ -772,7 +775,7 @@ def _solutions(rng):
 
 def gen_cases(rng, tier):
     per = {"quick": {"burgers": 30, "fisher": 30, "ou": 28, "fpe": 16, "glv": 48, "mass": 18, "ns": 34},
-           "thorough": {"burgers": 500, "fisher": 500, "ou": 450, "fpe": 250, "glv": 700, "mass": 300, "ns": 500}}[tier]
+           "thorough": {"burgers": 400, "fisher": 400, "ou": 350, "fpe": 200, "glv": 550, "mass": 250, "ns": 400}}[tier]
     cases = []
     for kind, n in per.items():
         for _ in range(n):
@@ -791,7 +794,7 @@ def gen_cases(rng, tier):
     g["flavour"] = "guard"
     cases.append(g)
     # parameter solved so that the documented residual vanishes at the point; and the same, perturbed
-    keep = 4 if tier == "quick" else 50
+    keep = 4 if tier == "quick" else 40
     base = []
     for k in per:
         for _ in range(12 * keep):
@@ -816,11 +819,11 @@ def gen_cases(rng, tier):
             p = _set_free(p, fr, _get_free(s, fr) + rng.choice([Fraction(1, 4), -1, 2]))
         p["flavour"] = "perturbed_at_point"
         cases.append(p)
-    reps = 2 if tier == "quick" else 15
+    reps = 2 if tier == "quick" else 12
     for _ in range(reps):
         cases += _solutions(rng)
     if tier == "thorough":
-        for c in cases[::9]:
+        for c in cases[::15]:
             c["jit"] = True
     return cases
 
